@@ -20,6 +20,7 @@ var wRuns int
 var wPrev int32
 var wDone int
 var wWorkerRan bool
+var wPreErr bool
 
 type wRunner struct{}
 
@@ -64,7 +65,8 @@ func wCut(d time.Duration) {
 		rt.Assert(wRuns == 1, "C03.worker-runs-the-task-exactly-once")
 	}
 	hard := rt.And(wFail, rt.Not(allow))
-	rt.Assert((iGraph.error != nil) == hard, "C07.hard-failure-recorded-as-run-error")
+	rt.Assert((iGraph.error != nil) == rt.Or(hard, wPreErr), "C07.hard-failure-recorded-as-run-error")
+	rt.Assert(rt.Implies(wPreErr, iGraph.error != nil), "C02.a-worker-never-clears-an-error-recorded-by-another-stage")
 	rt.Cover("C01.worker-checked")
 	rt.Stop()
 }
@@ -86,6 +88,11 @@ func VerifSchedWorker(kind int) {
 	g, err := NewExecutionGraph(wStage)
 	rt.Assert(err == nil, "C01.graph-built")
 	iGraph = g
+	// another stage may already have recorded the run's error
+	wPreErr = rt.Bool("error-already-recorded-by-another-stage")
+	if wPreErr {
+		g.error = rt.ErrorNew("another stage failed")
+	}
 	rt.Redirect("time.Sleep", wCut)
 	rt.Redirect("(*sync.WaitGroup).Done", wWgDone)
 	rt.OnGo(wOnGo)
